@@ -42,9 +42,14 @@ if os.path.exists(log):
 out = {"property": P, "id": "%s-%s" % (P, K), "summary": meta.get("summary", ""), "needs": meta.get("needs", ""),
        "files": meta.get("files", []), "author": "independent sub-agent given only the property record and a scratch worktree",
        "confirmed_by_coordinator": {
-           "how": "in the scratch worktree /tmp/mut-%s: demonstration on the clean tree, git apply patch.diff, cargo test --workspace --offline, demonstration with the change, git checkout" % P,
-           "existing_tests_pass_with_change": conf.get("tests_exit") == "0" and conf.get("failed_binaries") == "0",
-           "test_binaries_ok": conf.get("ok_binaries"),
+           "how": "in the scratch worktree /tmp/mut-%s (tools/confirm_seeded.sh): demonstration on the clean tree, git apply "
+                  "patch.diff, `cargo test -p lalrpop -p lalrpop-util --offline`, demonstration with the change, git checkout. "
+                  "The full workspace suite (about an hour of CPU per change: lalrpop-test is regenerated and recompiled) was "
+                  "run once per change by the authoring agent; its log is counted below." % P,
+           "unit_tests_pass_with_change": conf.get("unit_tests_exit") == "0" and conf.get("failed_binaries") == "0",
+           "unit_test_binaries_ok": conf.get("ok_binaries"),
+           "full_suite_by_author_ok_binaries": conf.get("agent_full_suite_ok"),
+           "full_suite_by_author_failed_binaries": conf.get("agent_full_suite_failed"),
            "demo_exit_clean": conf.get("demo_clean_exit"), "demo_exit_with_change": conf.get("demo_mutant_exit")},
        "caught_by_checks": [c for c in caught.split(",") if c],
        "evaluated_with": "tools/mutant_eval.py seeded/%s-%s/patch.diff %s (quick tier, seed 1)" % (P, K, " ".join(caught.split(","))),
